@@ -76,6 +76,55 @@ var replyShapes = map[string]string{
 	"meta-header-str":   `{"result":{"get":true},"meta":{"header":"x"}}`,
 }
 
+// replyMalformed: the request types for which a reply shape is malformed
+// (server/codec Decode*Response). For the other types the payload happens to
+// be a well-formed answer (an access result without grants, an arbitrary call
+// result, a plain model for a get request), so the shape is not used there.
+// "*" = every request type.
+var replyMalformed = map[string]string{
+	"both":             "get query",
+	"neither":          "get",
+	"noresult":         "*",
+	"badjson":          "*",
+	"empty":            "*",
+	"null-result":      "get query access",
+	"model-badvalue":   "get query",
+	"model-objvalue":   "get query",
+	"coll-delete":      "get query",
+	"model-array":      "get query",
+	"coll-object":      "get query",
+	"model-emptyrid":   "get query",
+	"model-wildrid":    "get query",
+	"error-nocode":     "*",
+	"error-string":     "*",
+	"get-string":       "get access",
+	"result-array":     "get query access",
+	"resource-badrid":  "*",
+	"resource-empty":   "*",
+	"resource-wild":    "*",
+	"resource-num":     "*",
+	"events-notarray":  "get query",
+	"events-badevent":  "get query",
+	"events-badchange": "get query",
+	"events-and-model": "query",
+	"meta-string":      "get access call auth",
+	"meta-status-str":  "get access call auth",
+	"meta-header-str":  "get access call auth",
+}
+
+func malformedFor(shape, typ string) bool {
+	m := replyMalformed[shape]
+	if m == "*" {
+		return true
+	}
+	for _, t := range strings.Fields(m) {
+		if t == typ {
+			return true
+		}
+	}
+	return false
+}
+
 // inject delivers a malformed event of the given shape on the resource, if
 // the gateway is subscribed to it.
 func (s *Sim) inject(sname, shape string) bool {
@@ -104,6 +153,9 @@ func (s *Sim) inject(sname, shape string) bool {
 func (s *Sim) replyBad(r *mqReq, shape string) bool {
 	raw, ok := replyShapes[shape]
 	if !ok {
+		return false
+	}
+	if !malformedFor(shape, r.typ) {
 		return false
 	}
 	if !s.w.mq.take(r) {
